@@ -20,7 +20,7 @@ RULE = ("cases = trial kind x walker container x n_walkers=6 x n_batch in {1,2,3
         "propagate; storage cases = closed-shell Hamiltonian, RHF trial + restricted propagator vs UHF trial (same orbitals) + unrestricted "
         "propagator, same seed, through propagate / sampler blocks / driver; non-trivial = permutation is not the identity and walkers are "
         "pairwise distinct")
-MIN_NONTRIVIAL = {"quick": 25, "thorough": 250}
+MIN_NONTRIVIAL = {"quick": 20, "thorough": 120}
 TIMEOUT = {"quick": 1800, "thorough": 7200}
 ASSUMPTIONS = ["n_batch divides n_walkers", "closed-shell, spin-independent Hamiltonians for the storage-format clause"]
 REQUIRED_COUNTERS = {"measure_cases": 15, "propagate_cases": 8, "storage_cases": 3}
